@@ -51,7 +51,7 @@ def gen_chain(rng, prof, kind, serial, mode_ordered):
             flav = rng.weighted([(0, 6), (7, prof.park_weight), (8, 2 if prof.nested_args else 0), (9, 1 if prof.user_panic_answers else 0)])
             resp = f"ans{serial * 100 + j * 10 + flav}"
         elif r == 'pan':
-            resp = f"pan{serial * 10 + j}"
+            resp = f"pan{serial * 10 + j}" if rng.below(6) else 'panE'     # `panE`: the empty message `.panics("")`
         else:
             resp = r
         if not last:
